@@ -12,7 +12,7 @@ EXPLANATION = (
     "y >= 0 tests; (b) image[[y as usize, x as usize]] with x, y the variables of Range loops whose start passed through "
     "max(.., 0) and whose end passed through min(.., rows/cols of the image); (c) image[p.coord()] with p produced by the "
     "Bresenham iterator over a Line whose two end points both come from clamp_to_bounds(.., rows, cols) of the same image, "
-    "in a function that returned early for an image without rows or columns; (no-unsafe) no raw pointer dereference or "
+    "in a function that returned early for an image without rows or columns; any other mutable access to the image view (slice_mut, fill, iter_mut ...) is a violation; (no-unsafe) no raw pointer dereference or "
     "unchecked access in the module, so no write can land outside the view's storage; (delegation) stroke_rect, "
     "draw_polygon and Painter write only through fill_rect / draw_line. Hence no primitive can panic on or write outside "
     "the image because of where the shape lies. That the pixels written are inside the *shape*, the contour-tracing half of "
@@ -121,6 +121,15 @@ def writes(ctx, fb, fns):
                     why = 'checked get_mut; Point::coord() is reached only under x >= 0 and y >= 0' if ok else \
                         'Point::coord() (which panics on negative coordinates) feeds get_mut without x >= 0 and y >= 0 tests: points left of / above the image panic instead of being skipped'
                 ctx.inst(R, key, ok, why, c.loc())
+            elif re.search(r'TensorBase::<.*>::(slice_mut|fill|apply|iter_mut|data_mut|lanes_mut|inner_iter_mut|axis_iter_mut|axis_chunks_mut|copy_from|index_axis_mut|split_at_mut|nd_view_mut|as_dyn_mut|permuted_mut|transposed_mut|clip_dim|get_unchecked_mut)$', cal) and _is_image(f, c.args[0]):
+                # a sub-view handed straight to another drawing primitive (Painter selecting a channel) is delegation, not a write
+                if cal.endswith('slice_mut') and any(k.callee and k.callee.startswith(MOD) and k.args and gi_same(f, k.args[0], c) for k in f.calls()):
+                    continue
+                # any other way of writing through the image view: its coordinates are not covered by forms (a)-(c)
+                n += 1
+                direct[short] = direct.get(short, 0) + 1
+                ctx.inst(R, 'other-write:%s#%d' % (short, direct[short]), False,
+                         'the image is written through %s: range-based views use NumPy slice semantics (a negative end counts from the end of the axis, an out-of-range bound panics), so clipping with max(0)/min(size) is not enough; only the three checked forms are accepted' % cal.split('::')[-1], c.loc())
             elif re.search(r'get_unchecked(_mut)?$|::offset_unchecked$', cal):
                 n += 1
                 ctx.inst(R, 'unchecked:%s' % short, False, 'unchecked element access in a drawing primitive', c.loc())
@@ -133,6 +142,12 @@ def writes(ctx, fb, fns):
             via = sorted(x for x in callees if x in ('fill_rect', 'draw_line', 'draw_polygon'))
             ctx.inst(R, 'delegates:' + short, short not in direct and bool(via), '%s writes only through %s' % (short, via) if short not in direct and via else
                      '%s writes pixels directly or through no clipped primitive' % short, f.loc())
+
+
+def gi_same(f, op, call):
+    """operand is (a move/copy of) the result of `call`"""
+    r = f.resolve_copy(op)
+    return r[0] == 'call' and r[1].bb == call.bb
 
 
 def _deep_origins(f, op, depth=4):
